@@ -383,7 +383,7 @@ func runC04(ctx *h.Ctx) int {
 		p := profC01()
 		p.MaxDepth, p.MaxLen, p.PTextArg, p.PMovesArg = 2, 2, 0.5, 0.2
 		p.TextPool = nil
-		p.PCall = 0 // (the hoisting oracle finds a command through its unique name)
+		p.PCall, p.PEndVariants = 0, 0 // (the hoisting oracle finds a command through its unique name)
 		g := spec.NewGen(k.R, p)
 		sc := &spec.Script{ID: g.Prog.NewID(), Name: g.Name("ScrBig"), Body: &spec.Block{ID: g.Prog.NewID()}}
 		n := 45 + k.R.IntN(30)
